@@ -610,14 +610,21 @@ class kMinPathError(pathmodel.AbstractPathModelDAG):
         non_empty_weights = []
         non_empty_slacks = []
         non_empty_scaled_slacks = []
-        for path, weight, slack, scaled_slack in zip(solution["paths"], solution["weights"], solution["slacks"], solution.get("scaled_slacks", solution["slacks"])):
-            if len(path) > 1:
+        # In node-weighted mode a route through a single node is not empty: emptiness is decided
+        # on the internal (expanded) routes, which are filtered together with the reported ones.
+        internal_paths = solution.get("_paths_internal", solution["paths"])
+        non_empty_internal = []
+        for path, internal_path, weight, slack, scaled_slack in zip(solution["paths"], internal_paths, solution["weights"], solution["slacks"], solution.get("scaled_slacks", solution["slacks"])):
+            if len(internal_path) > 1:
+                non_empty_internal.append(internal_path)
                 non_empty_paths.append(path)
                 non_empty_weights.append(weight)
                 non_empty_slacks.append(slack)
                 non_empty_scaled_slacks.append(scaled_slack)
 
         solution_copy["paths"] = non_empty_paths
+        if "_paths_internal" in solution_copy:
+            solution_copy["_paths_internal"] = non_empty_internal
         solution_copy["weights"] = non_empty_weights
         solution_copy["slacks"] = non_empty_slacks
         if "scaled_slacks" in solution_copy:
